@@ -31,7 +31,7 @@ ASSUMPTIONS = ["virtual time: timers fire when the driver reaches their "
                "its thread's passes (one legal interleaving of the two threads)",
                "fairness over unbounded runs is not decided: every runnable "
                "task must have run by quiescence of a bounded program"]
-REQUIRED = ["programs", "redundant_wakes_of_a_queued_task", "steps_checked", "timed_resumes", "select_timeouts",
+REQUIRED = ["programs", "fires_of_recurring_timers_with_interval_zero", "redundant_wakes_of_a_queued_task", "steps_checked", "timed_resumes", "select_timeouts",
             "select_ready", "wakes", "subtask_returns", "subtask_raises",
             "tasks_raised", "timer_fires", "timers_cancelled", "quiescent_checks",
             "programs_natural_drive", "natural_select_timeouts",
@@ -591,6 +591,7 @@ def _run_program (case, rep, w, clock, sched, fire, rc):
     def cb ():
       fires.append(clock.now)
       rep.count("timer_fires")
+      if spec["interval"] == 0: rep.count("fires_of_recurring_timers_with_interval_zero")
       if spec.get("stop_after") and len(fires) >= spec["stop_after"]:
         return False
       # only the object False asks a self-stoppable timer to stop; other
@@ -769,7 +770,9 @@ def _run_program (case, rep, w, clock, sched, fire, rc):
           fire("recurring timer fired early",
                "spacing %.3f < interval %.3f" % (b - a, iv)); return True
       lim = sp.get("stop_after")
-      expect_min = int((end - c0) / iv + 1e-9)
+      # (an interval of zero: the timer fires again at once, as often as its
+      #  callback lets it)
+      expect_min = int((end - c0) / iv + 1e-9) if iv > 0 else (lim or 0) + 1
       if lim: expect_min = min(expect_min, lim)
       if len(f) < expect_min - 1:
         fire("recurring timer stopped firing",
@@ -890,6 +893,11 @@ def gen_random (rng, n):
       elif r < 0.6: sp["start_delay"] = rng.choice([0.5, 2, 5, 11])
       elif r < 0.7 and not rec: sp["absolute"] = True
       if rec and rng.random() < 0.3: sp["stop_after"] = rng.randrange(1, 5)
+      if rec and rng.random() < 0.12:
+        # "as often as possible until told to stop": interval 0, stopped by
+        # its own callback after a few rounds
+        sp = dict(interval=0, recurring=True, stop_after=rng.randrange(2, 6))
+        timers.append(sp); continue
       if rng.random() < 0.5: sp["ret"] = rng.randrange(8)
       if rec and rng.random() < 0.2:
         # a recurring timer that may not stop itself: a callback returning
